@@ -375,3 +375,88 @@ Proof.
 Qed.
 
 Local Transparent path_eqb.
+
+(* ---------------------------------------------------------------- schedules *)
+Theorem Inv_run : forall es g s g', checks g (calls_of es) = Some g' -> Inv g s ->
+  exists s', run s es = Some s' /\ Inv g' s'.
+Proof.
+  induction es as [|[c|b] es IH]; intros g s g' Hc I; simpl in *.
+  - inv_some. eauto.
+  - destruct (check g c) as [g1|] eqn:E; [|discriminate].
+    destruct (Inv_call _ _ _ _ E I) as [s1 [H1 I1]]. rewrite H1. eauto.
+  - eapply IH; eauto. now apply Inv_bg.
+Qed.
+
+Lemma checks_app : forall tr1 tr2 g, checks g (tr1 ++ tr2) =
+  match checks g tr1 with Some g1 => checks g1 tr2 | None => None end.
+Proof.
+  induction tr1 as [|c tr1 IH]; intros tr2 g; simpl; [reflexivity|].
+  destruct (check g c); auto.
+Qed.
+
+Lemma checks_prefix : forall tr n g g', checks g tr = Some g' -> exists g1, checks g (firstn n tr) = Some g1.
+Proof.
+  intros tr n g g' H. rewrite <- (firstn_skipn n tr) in H. rewrite checks_app in H.
+  destruct (checks g (firstn n tr)); [eauto|discriminate].
+Qed.
+
+(* ---------------------------------------------------------------- what Inv says about the durable tree *)
+(* closure: everything a referenced name's content refers to is referenced *)
+Inductive greach (g : ghost) : path -> path -> Prop :=
+| greach_self : forall k, greach g k k
+| greach_step : forall k k1 k2 c b, greach g k k1 -> st g k1 = Linked c b -> In k2 (refs c) -> greach g k k2.
+
+Lemma refd_closed : forall g s k k', Inv g s -> greach g k k' -> refd g k = true -> refd g k' = true.
+Proof.
+  intros g s k k' I H. induction H; intro Hk; auto.
+  destruct (i_refd _ _ I _ (IHgreach Hk)) as [Hf _]. destruct k1; [|discriminate].
+  eapply (i_refs _ _ I); eauto.
+Qed.
+
+(* a referenced name is durably present and whole, and visible with the same content *)
+Lemma refd_durable : forall g s k, Inv g s -> refd g k = true ->
+  exists c i, st g k = Linked c true /\ k <> PTR /\ dE s k = Some i /\ dD s i = c /\ vE s k = Some i /\ vD s i = c.
+Proof.
+  intros g s k I H. destruct (i_refd _ _ I _ H) as [Hf [Hp [c Hc]]]. destruct k as [d n|]; [|discriminate].
+  destruct (i_linked _ _ I d n c true Hc) as [i [H1 H2]]. specialize (H2 eq_refl).
+  exists c, i. repeat split; auto.
+  - eapply (i_dur _ _ I); eauto.
+  - destruct (i_vol _ _ I d n i H1) as [c' [b' [E1 [E2 E3]]]]. congruence.
+Qed.
+
+(* the durable pointer, whatever version of it survived, is whole and refers only to referenced names *)
+Theorem Inv_pointer_safe : forall g s i, Inv g s -> dE s PTR = Some i ->
+  vD s i = dD s i /\
+  forall r, In r (refs (dD s i)) -> forall k, greach g r k ->
+    exists c j, st g k = Linked c true /\ k <> PTR /\ dE s k = Some j /\ dD s j = c.
+Proof.
+  intros g s i I Hi. split; [eapply (i_sealed _ _ I); eauto|].
+  intros r Hr k Hk. assert (Hrf : refd g r = true) by (eapply (i_ptr _ _ I); eauto).
+  pose proof (refd_closed _ _ _ _ I Hk Hrf) as Hkf.
+  destruct (refd_durable _ _ _ I Hkf) as [c [j [A [B [C [D _]]]]]]. exists c, j. auto.
+Qed.
+
+(* the ghost-free form *)
+Theorem Inv_safe : forall g s, Inv g s -> safe_state s.
+Proof.
+  intros g s I i Hi. split; [symmetry; eapply (i_sealed _ _ I); eauto|].
+  intros r Hr k Hk. assert (Hrf : refd g r = true) by (eapply (i_ptr _ _ I); eauto).
+  assert (Hkf : refd g k = true).
+  { clear Hr. induction Hk as [k|v k k' c Hk IH Hc Hin]; auto.
+    specialize (IH Hrf). destruct (refd_durable _ _ _ I IH) as [c' [j [A [B [C [D _]]]]]].
+    unfold content_at, power_loss in Hc. rewrite C in Hc. inversion Hc; subst.
+    destruct k as [d n|]; [|destruct (i_refd _ _ I _ IH); discriminate].
+    eapply (i_refs _ _ I); eauto. }
+  destruct (refd_durable _ _ _ I Hkf) as [c [j [A [B [C [D [E F]]]]]]].
+  exists c. unfold content_at, power_loss. rewrite C, E, D, F. auto.
+Qed.
+
+(* Theorem A: a disciplined trace is safe at every prefix under every schedule, and never hits an OS error *)
+Theorem disciplined_safe : forall tr, disciplined tr = true ->
+  forall n es, calls_of es = firstn n tr ->
+  exists s', run fs0 es = Some s' /\ safe_state s'.
+Proof.
+  intros tr Hd n es Hes. unfold disciplined in Hd. destruct (checks g0 tr) as [g'|] eqn:E; [|discriminate].
+  destruct (checks_prefix tr n g0 g' E) as [g1 H1]. rewrite <- Hes in H1.
+  destruct (Inv_run es g0 fs0 g1 H1 Inv_init) as [s' [Hr I]]. exists s'. split; auto. eapply Inv_safe; eauto.
+Qed.
